@@ -14,7 +14,8 @@ RULE = ("case = (requests per client thread, optional BgServingThread, the peer'
         "scripted raw peer; every source line of serve/_dispatch*/_seq_request_callback/_async_request/_get_seq_id/_send/"
         "AsyncResult.__call__/wait/_bg_server is a preemption point. Schedules: Hypothesis-generated preemption lists "
         "(bound 3 quick, 5 thorough) plus preemption-bounded DFS on the smallest shape. oracle: every request returns "
-        "exactly its own token, request sequence numbers pairwise distinct, every frame the peer sent was dispatched "
+        "exactly its own token (a client thread may instead issue the request asynchronously and register a completion callback, "
+        "which must then run exactly once with that token), request sequence numbers pairwise distinct, every frame the peer sent was dispatched "
         "exactly once, nobody ends in a timeout, no deadlock, and never 'virtual time advances while a thread sleeps on "
         "the receive condition with the receive lock free and unread data available'. non-trivial = at least one "
         "preemption taken, or replies answered out of order, or a reply received by a thread other than its requester. "
@@ -23,7 +24,7 @@ ASSUMPTIONS = ["preemption at source-line granularity of the traced functions; i
                "a thread that is merely late because of known finding F4/F4b (C14) still gets the right value; lateness is C14's"]
 
 TRACED = ["serve", "_dispatch", "_dispatch_request", "_seq_request_callback", "_async_request", "_get_seq_id", "_send",
-          "__call__", "wait", "_bg_server", "async_request", "sync_request", "value", "poll_all", "poll"]
+          "__call__", "wait", "_bg_server", "async_request", "sync_request", "value", "poll_all", "poll", "add_callback"]
 
 
 def run_case(case, chooser):
@@ -107,11 +108,21 @@ def run_case(case, chooser):
         done = [0]
         bgs = []
 
+        cb_runs = out["cb_runs"] = {}
+        style = case.get("style") or []
+
         def client(ci):
             for j in range(reqs[ci]):
                 tok = "c%dr%d" % (ci, j)
                 try:
-                    v = conn.sync_request(consts.HANDLE_PING, tok)
+                    if ci < len(style) and style[ci] == "cb":
+                        # asynchronous request + completion callback registered while the reply may already be on its way
+                        res = conn.async_request(consts.HANDLE_PING, tok, timeout=30)
+                        cb_runs[tok] = []
+                        res.add_callback(lambda r, _t=tok: cb_runs[_t].append(r.value if r.ready and not r.error else "<not a value>"))
+                        v = res.value
+                    else:
+                        v = conn.sync_request(consts.HANDLE_PING, tok)
                     out["results"][tok] = ["value", v]
                 except sk.KernelAbort:
                     raise
@@ -147,6 +158,11 @@ def run_case(case, chooser):
                     P.append(("request-raised", r[1], [tok] + r[1:]))
                 elif r[1] != tok:
                     P.append(("crossed-reply", "request got another request's reply", [tok, r[1]]))
+        if not k.deadlock:
+            for tok, runs in sorted(cb_runs.items()):
+                if out["results"].get(tok, [None])[0] == "value" and runs != [tok]:
+                    P.append(("callback", "completion callback ran %d times" % len(runs) if len(runs) != 1 else
+                              "completion callback saw another value", [tok, runs]))
         if len(set(seen_req_seqs)) != len(seen_req_seqs):
             P.append(("seq-reused", "two requests carried the same sequence number", sorted(seen_req_seqs)))
         if not k.deadlock:
@@ -173,12 +189,14 @@ def check(case, chooser, rec):
     nontrivial = bool(taken) or bool(o.get("out_of_order")) or o["cross_received"]
     classes = ["clients:%d" % len(case["reqs"]), "bg:%s" % case["bg"], "preemptions:%d" % len(taken),
                "out-of-order:%s" % bool(o.get("out_of_order")), "cross-received:%s" % o["cross_received"]]
+    if "cb" in (case.get("style") or []):
+        classes.append("async-with-callback")
     if any(a[0] == "U" for a in case["plan"]):
         classes.append("unsolicited-request")
     for _, tag in o["taken"]:
         if tag and tag[0] == "line":
             classes.append("preempt-in:" + tag[1])
-    key = {"reqs": case["reqs"], "bg": case["bg"], "plan": case["plan"], "executed": taken, "np": o["np_taken"]}
+    key = {"reqs": case["reqs"], "bg": case["bg"], "plan": case["plan"], "executed": taken, "np": o["np_taken"], "style": case.get("style")}
     rec.case(key, nontrivial, classes)
     rec.count("decision_points", o["decisions"])
     return [Failure(cl, k_, case, d) for cl, k_, d in o["problems"][:3]]
@@ -197,7 +215,7 @@ def cases(bound):
     return st.fixed_dictionaries({
         "part": st.just("random"),
         "reqs": st.lists(st.integers(1, 2), min_size=2, max_size=3),
-        "bg": st.booleans(),
+        "bg": st.booleans(), "style": st.lists(st.sampled_from(["sync", "sync", "cb"]), min_size=3, max_size=3),
         "plan": plans(),
         "preempt": st.lists(st.tuples(st.integers(0, 90), st.integers(0, 3)).map(list), max_size=bound),
         "np": st.lists(st.integers(0, 3), max_size=10),
@@ -230,10 +248,12 @@ def plan(tier, scale):
         out = [{"part": "random", "n": int(260 * scale), "bound": 3} for _ in range(12)]
         out += [{"part": "dfs", "base": {"reqs": [1, 1], "bg": bg, "plan": pl}, "bound": 1, "limit": 1500}
                 for bg in (False, True) for pl in ([], [["W", 0], ["A", 1]])]
+        out.append({"part": "dfs", "base": {"reqs": [1, 1], "bg": True, "plan": [], "style": ["cb", "sync"]}, "bound": 1, "limit": 1500})
         return out
     out = [{"part": "random", "n": int(9000 * scale), "bound": 5} for _ in range(14)]
     out += [{"part": "dfs", "base": {"reqs": [1, 1], "bg": bg, "plan": pl}, "bound": 2, "limit": 60000}
             for bg in (False, True) for pl in ([], [["W", 0], ["A", 1]])]
+    out.append({"part": "dfs", "base": {"reqs": [1, 1], "bg": True, "plan": [], "style": ["cb", "sync"]}, "bound": 2, "limit": 60000})
     return out
 
 
